@@ -11,7 +11,7 @@ Local Open Scope Z_scope.
 (* Every frame ever written: a request carries a tag in [2, max_tag - 1]; the reserved tags 0 and 1 are used by
    Tdiscarded and Tping frames only. *)
 Theorem C11_range : forall cf ls k t x,
-  2 <= max_tag cf -> In (EWritten k t x) (trace cf init ls) ->
+  1 <= base cf <= max_tag cf - 1 -> In (EWritten k t x) (trace cf (start cf) ls) ->
   match k with
   | KReq => 2 <= t <= max_tag cf - 1
   | KDiscard => t = 0
@@ -24,7 +24,7 @@ Qed.
 Print Assumptions C11_range.
 
 Corollary C11_range_real : forall kf ls t c,
-  In (EWritten KReq t c) (trace (real_cfg kf) init ls) -> 2 <= t <= 16777214.
+  In (EWritten KReq t c) (trace (real_cfg kf) (start (real_cfg kf)) ls) -> 2 <= t <= 16777214.
 Proof.
   intros kf ls t c H. apply (C11_range (real_cfg kf) ls KReq t c) in H; cbn in *; lia.
 Qed.
@@ -33,8 +33,8 @@ Print Assumptions C11_range_real.
 (* 0 and 1 (and anything above the high-water mark) are never in the free set, never a key of _tag_map and never the
    tag of a queued request, whatever the peer sent. *)
 Theorem C11_reserved : forall cf ls t,
-  2 <= max_tag cf ->
-  let s := exec cf init ls in
+  1 <= base cf <= max_tag cf - 1 ->
+  let s := exec cf (start cf) ls in
   In t (p_free (pl s)) \/ In t (keys (tmap s)) \/ (exists c, In (QReq t c) (sendq s)) ->
   2 <= t <= p_next (pl s) /\ p_next (pl s) <= max_tag cf - 1.
 Proof.
@@ -50,8 +50,8 @@ Print Assumptions C11_reserved.
 (* The free set and the keys of _tag_map are disjoint and duplicate-free; while the connection is up they are exactly
    the tags 2 .. _next, so |free| + |_tag_map| = _next - 1. *)
 Theorem C11_unique : forall cf ls,
-  2 <= max_tag cf ->
-  let s := exec cf init ls in
+  1 <= base cf <= max_tag cf - 1 ->
+  let s := exec cf (start cf) ls in
   NoDup (p_free (pl s) ++ keys (tmap s)) /\
   (closed s = false -> forall t, 2 <= t <= p_next (pl s) <-> In t (p_free (pl s) ++ keys (tmap s))) /\
   (closed s = false -> Z.of_nat (length (p_free (pl s)) + length (tmap s)) = p_next (pl s) - 1).
@@ -65,7 +65,7 @@ Print Assumptions C11_unique.
 (* On the wire: the request frames that were written and whose call has received neither a reply nor an error
    ([unanswered] is computed from the observable events only) carry pairwise distinct tags, at every moment. *)
 Theorem C11_unique_wire : forall cf ls,
-  2 <= max_tag cf -> NoDup (map fst (unanswered (trace cf init ls))).
+  1 <= base cf <= max_tag cf - 1 -> NoDup (map fst (unanswered (trace cf (start cf) ls))).
 Proof.
   intros cf ls H. exact (t_uniq _ _ _ (TInv_reach cf ls H)).
 Qed.
@@ -73,7 +73,7 @@ Print Assumptions C11_unique_wire.
 
 (* ... and each of them is still the holder of its tag in _tag_map (so no later request can be given that tag). *)
 Theorem C11_unanswered_hold : forall cf ls t c,
-  2 <= max_tag cf -> In (t, c) (unanswered (trace cf init ls)) -> In (t, c) (tmap (exec cf init ls)).
+  1 <= base cf <= max_tag cf - 1 -> In (t, c) (unanswered (trace cf (start cf) ls)) -> In (t, c) (tmap (exec cf (start cf) ls)).
 Proof.
   intros cf ls t c H. exact (t_out _ _ _ (TInv_reach cf ls H) t c).
 Qed.
@@ -83,13 +83,13 @@ Print Assumptions C11_unanswered_hold.
    step that drops the request at the head of the queue because its deadline has fired; that request holds the tag
    and no frame of it has ever been written. *)
 Theorem C11_release_points : forall cf ls l t,
-  2 <= max_tag cf ->
-  let s := exec cf init ls in
+  1 <= base cf <= max_tag cf - 1 ->
+  let s := exec cf (start cf) ls in
   In t (p_free (pl (fst (step cf s l)))) -> ~ In t (p_free (pl s)) ->
   (exists mt, l = Recv mt t /\ In t (keys (tmap s))) \/
   (exists io c q, l = SendStep io /\ sendq s = QReq t c :: q /\ c_ev (get_call c s) = Fired /\
                   lookup t (tmap s) = Some c /\ snd (step cf s l) = [EDropped t c] /\
-                  forall k t', ~ In (EWritten k t' c) (trace cf init ls) \/ k <> KReq).
+                  forall k t', ~ In (EWritten k t' c) (trace cf (start cf) ls) \/ k <> KReq).
 Proof.
   intros cf ls l t H s Hin Hn. pose proof (SInv_reach cf ls H) as I. fold s in I.
   destruct (step_release_points cf s l t I Hin Hn) as [A|(io & c & q & E1 & E2 & E3 & E4 & E5)]; [left; exact A|].
@@ -103,8 +103,8 @@ Print Assumptions C11_release_points.
 
 (* get() only moves the high-water mark when nothing is free, and then every tag 2 .. _next is in _tag_map. *)
 Theorem C11_reuse : forall cf ls l,
-  2 <= max_tag cf ->
-  let s := exec cf init ls in
+  1 <= base cf <= max_tag cf - 1 ->
+  let s := exec cf (start cf) ls in
   let s' := fst (step cf s l) in
   p_next (pl s') <> p_next (pl s) ->
   (p_free (pl s) = [] /\ p_next (pl s') = p_next (pl s) + 1 /\ Z.of_nat (length (tmap s')) = p_next (pl s') - 1 /\
@@ -123,7 +123,7 @@ Print Assumptions C11_reuse.
 (* Hence the number of tags ever created on a connection is bounded by the largest number of simultaneously
    unanswered (queued, in flight, or timed out but not yet answered) requests. *)
 Theorem C11_reuse_peak : forall cf ls,
-  2 <= max_tag cf -> p_next (pl (exec cf init ls)) - 1 <= peak cf init ls 0.
+  1 <= base cf <= max_tag cf - 1 -> p_next (pl (exec cf (start cf) ls)) - 1 <= peak cf (start cf) ls 0.
 Proof.
   intros cf ls H. apply peak_next; [apply SInv_init, H | cbn; lia].
 Qed.
